@@ -135,7 +135,9 @@ Qed.
 
 Lemma next_ok c st x : state_ok st -> op_ok x -> state_ok (next c st x).
 Proof.
-  unfold state_ok. intros Hst Hop. destruct x; simpl in *; auto.
+  unfold state_ok. intros Hst Hop. destruct x; simpl in *; auto;
+    try (apply update_span_ok; auto; intros s (Hs & Hn & Hv); unfold span_ok, aborted_effect; simpl;
+         destruct repo_fresh; repeat split; auto using sorted_nil; fail).
   - apply Forall_app. split; auto. constructor; [|constructor]. simpl.
     apply visit_span_ok; auto using sorted_nil, vals_ok_eff.
   - apply update_span_ok; auto. intros s (Hs & Hn & Hv). unfold span_ok. simpl.
@@ -454,7 +456,29 @@ Proof.
   - exact IH.
   - (* OClose *)
     rewrite find_span_remove. destruct (i =? i0); [reflexivity | exact IH].
+  - (* ORecordAborted: add_fields works on a fresh String, the stored fields are untouched *)
+    rewrite find_span_update. destruct (i =? i0) eqn:Ei; [|exact IH].
+    destruct h as [[init recs]|].
+    + destruct IH as (s & Hs & Hf). rewrite Hs. eexists. split; [reflexivity|]. exact Hf.
+    + rewrite IH. reflexivity.
 Qed.
+
+(** a `record` call that unwinds (a panicking Debug impl, caught by the caller) changes nothing: every span keeps exactly
+    the fields it had — on the tree as it is, where add_fields assigns the merged text only after finish() succeeded *)
+Lemma update_span_id i f l : (forall s, f s = s) -> update_span i f l = l.
+Proof.
+  intro H. induction l as [|[j s] r IH]; [reflexivity|]. simpl. destruct (i =? j); [rewrite H | rewrite IH]; reflexivity.
+Qed.
+
+Theorem aborted_record_changes_nothing c st i :
+  spans (next c st (ORecordAborted i)) = spans st /\ stack (next c st (ORecordAborted i)) = stack st.
+Proof.
+  split; [|reflexivity]. cbn [next spans]. apply update_span_id. intros [m p f]. reflexivity.
+Qed.
+
+(** ... whereas serialising into the stored string after clearing it loses every field recorded so far *)
+Lemma aborted_in_place_loses_everything m : aborted_effect false m = [] /\ aborted_effect true m = m.
+Proof. split; reflexivity. Qed.
 
 Theorem history_fields c : forall ops i s,
   find_span i (spans (state_after c ops)) = Some s ->
@@ -505,6 +529,7 @@ Proof.
   - destruct H as [<-|[]]. exists st, e, p. split; [left; reflexivity|]. split; [apply (Hev e p eq_refl) | reflexivity].
   - destruct (o_close o); [|inversion H]. destruct (find_span _ _) as [s|]; [|inversion H]. destruct H as [<-|[]].
     eexists _, _, _. split; [left; reflexivity|]. split; [apply life_event_ok | reflexivity].
+  - inversion H.
 Qed.
 
 Lemma run_from_records c o en : forall ops st line,
